@@ -108,7 +108,7 @@ const URIS: &[&str] = &[
 
 pub fn run(cfg: &RunCfg) -> Ctx {
     let mut all = Ctx::new();
-    all.merge(par_cases(cfg, "intercept", cfg.n(12000, 16 * 120_000), || (), |_, rng, ctx, _| case(rng, ctx)));
+    all.merge(par_cases(cfg, "intercept", cfg.n(60_000, 16 * 120_000), || (), |_, rng, ctx, _| case(rng, ctx)));
     for m in METHODS {
         all.floor(&format!("method.{}", m), 3);
     }
